@@ -99,10 +99,10 @@ func Canon(w *World) string {
 				annos[k] = v
 			}
 		}
-		fmt.Fprintf(&sb, "P %s/%s rank=%d phase=%s node=%s del=%v gated=%v groups=%v labels=%s annos=%s req=%s sel=%s aff=%s tol=%s\n",
+		fmt.Fprintf(&sb, "P %s/%s rank=%d phase=%s node=%s del=%v gated=%v groups=%v labels=%s annos=%s req=%s sel=%s aff=%s tol=%s%s\n",
 			p.Namespace, name, rank[p.CreationTimestamp.Unix()], p.Status.Phase, p.Spec.NodeName,
 			p.DeletionTimestamp != nil, len(p.Spec.SchedulingGates) > 0, gn(PodGPUGroups(p)), kv(labels), kv(annos),
-			podReq(p), kv(p.Spec.NodeSelector), js(p.Spec.Affinity), js(p.Spec.Tolerations))
+			podReq(p), kv(p.Spec.NodeSelector), js(p.Spec.Affinity), js(p.Spec.Tolerations), podClaimRefs(p))
 	}
 	brs := append(w.BindRequests[:0:0], w.BindRequests...)
 	sort.Slice(brs, func(i, j int) bool { return brs[i].Name < brs[j].Name })
@@ -111,10 +111,11 @@ func Canon(w *World) string {
 		if b.Spec.BackoffLimit != nil {
 			bl = fmt.Sprint(*b.Spec.BackoffLimit)
 		}
-		fmt.Fprintf(&sb, "BR %s node=%s groups=%v recv=%s gpu=%s backoff=%s phase=%s failed=%d\n", b.Spec.PodName,
+		fmt.Fprintf(&sb, "BR %s node=%s groups=%v recv=%s gpu=%s backoff=%s phase=%s failed=%d%s\n", b.Spec.PodName,
 			b.Spec.SelectedNode, gn(b.Spec.SelectedGPUGroups), b.Spec.ReceivedResourceType, js(b.Spec.ReceivedGPU), bl,
-			b.Status.Phase, b.Status.FailedAttempts)
+			b.Status.Phase, b.Status.FailedAttempts, brClaimAllocations(b))
 	}
+	canonDRA(&sb, w)
 	return sb.String()
 }
 
